@@ -399,7 +399,7 @@ def run_all(cases, workdir, want_i=True):
 
 
 # ---------------------------------------------------------------- shrinking
-def shrink_case(case, still_fails, budget=250):
+def shrink_case(case, still_fails, budget=250, shrinkable=None):
     """greedy minimisation of the text arguments of one case while the
     predicate still_fails(case) holds"""
     best = case
@@ -408,6 +408,8 @@ def shrink_case(case, still_fails, budget=250):
     while changed and used < budget:
         changed = False
         for ai in range(len(best.args)):
+            if shrinkable is not None and not shrinkable(best, ai):
+                continue
             try:
                 cs = dec(best.args[ai])
             except ValueError:
@@ -423,7 +425,11 @@ def shrink_case(case, still_fails, budget=250):
                     a2[ai] = enc(cand)
                     c2 = Case(best.op, a2, best.mop, best.sop, None, None, best.meta, best.tag)
                     used += 1
-                    if still_fails(c2):
+                    try:
+                        bad = still_fails(c2)
+                    except Exception:
+                        bad = False
+                    if bad:
                         best, cs, changed = c2, cand, True
                     else:
                         i += size
